@@ -299,6 +299,17 @@ static std::string handle (std::vector<std::string>& w)
               : f == "clamp" ? call_clamp_i (t, a, b) : f == "iszero" ? call_iszero_i (a, t) : call_equal_i (a, b, t);
         return std::to_string (r);
     }
+    if (c == "sm")
+    {
+        // MIXED instantiations of equal (T1 a, T2 b, T3 t): sm <id|fd|lf|df> a b t   (a: decimal int / float hex / double hex; b, t: hex)
+        // the usual arithmetic conversions make `a - b` a T2 (the wider type): the definition is |a - b| <= t evaluated THERE
+        const std::string& k = w[1];
+        bool r = k == "id" ? equal ((int) pi (w[2]), pd (w[3]), pd (w[4]))
+               : k == "fd" ? equal (pf (w[2]), pd (w[3]), pd (w[4]))
+               : k == "lf" ? equal ((long) pi (w[2]), pf (w[3]), pf (w[4]))
+                           : equal (pd (w[2]), pf (w[3]), pf (w[4]));
+        return r ? "1" : "0";
+    }
     if (c == "ul")
     {
         // ulerp / lerp at T = unsigned int, Q = float: ul <a> <b> <t as float hex>
